@@ -197,7 +197,9 @@ def harness_bin(profile):
     return os.path.join(HARNESS, "target", profile, "lvh")
 
 
-def harness_run(sub, profile, tier, seed, outdir, extra=(), timeout=3000):
+def harness_run(sub, profile, tier, seed, outdir, extra=(), timeout=None):
+    if timeout is None:
+        timeout = 600 if tier == "quick" else 3000
     os.makedirs(outdir, exist_ok=True)
     cmd = [harness_bin(profile), sub, "--tier", tier, "--seed", str(seed), "--out", outdir,
            "--shards", "16"] + list(extra)
@@ -285,8 +287,16 @@ def check(prop_id, tier, seed):
         rdir = os.path.join(outdir, sub + "_" + profile)
         rc, hout = harness_run(sub, profile, tier, seed, rdir, run_spec.get("extra", []))
         if rc != 0:
-            broken.append({"kind": "correspondence", "what": "harness run %s/%s exited with %d" % (sub, profile, rc),
+            broken.append({"kind": "correspondence", "what": "harness run %s/%s exited with %d%s" % (
+                sub, profile, rc, " (did not finish in time: hang)" if rc == 124 else ""),
                            "detail": hout[-2000:]})
+            # the harness leaves a breadcrumb naming the input it is working on: a hang or an abort
+            # (stack overflow, allocation failure) that no panic handler can catch happened there
+            crumb = os.path.join(rdir, "current_case.txt")
+            if os.path.exists(crumb):
+                failures.append({"what": "the library did not return on this input (hang, stack overflow or abort)"
+                                 if rc == 124 or rc < 0 or rc == 134 else "the harness stopped on this input",
+                                 "input": open(crumb).read()[:3000], "run": sub + "/" + profile})
             continue
         for sf in sorted(glob.glob(os.path.join(rdir, "*_stats.json"))):
             st = json.load(open(sf))
